@@ -50,8 +50,9 @@ VARIABLES
     eff,        \* eq mode: options currently held by each EdgeQuery object
     inv,        \* loop mode: inversion parity per object
     lidx,       \* loop mode: per object [status, pendPos, indexed]
+    tgrown,     \* eq mode: the targets whose ShapeIndex target has been given another point
     h           \* history
-vars == <<shapes, nextID, pendPos, status, indexed, epoch, cpq, ceq, eff, inv, lidx, h>>
+vars == <<shapes, nextID, pendPos, status, indexed, epoch, cpq, ceq, eff, inv, lidx, tgrown, h>>
 
 Live == {i \in 1..Len(shapes) : shapes[i] # "-"}
 LiveIds == {i - 1 : i \in Live}
@@ -69,7 +70,7 @@ Add(s) ==
     /\ s \in Catalog /\ s \notin Present
     /\ shapes' = Append(shapes, s) /\ nextID' = nextID + 1 /\ status' = "stale"
     /\ epoch' = epoch + 1
-    /\ UNCHANGED <<pendPos, indexed, cpq, ceq, eff, inv, lidx>>
+    /\ UNCHANGED <<pendPos, indexed, cpq, ceq, eff, inv, lidx, tgrown>>
     /\ h' = Log([a |-> "Add", x |-> s, r |-> "-",
                  st |-> [status |-> "stale", pend |-> pendPos, next |-> nextID + 1, n |-> NumLive + 1, indexed |-> indexed]])
 
@@ -80,14 +81,14 @@ StAfterApply == [status |-> "fresh", pend |-> nextID, next |-> nextID, n |-> Num
 
 Build ==
     /\ MaybeApplyVars
-    /\ UNCHANGED <<shapes, nextID, epoch, cpq, ceq, eff, inv, lidx>>
+    /\ UNCHANGED <<shapes, nextID, epoch, cpq, ceq, eff, inv, lidx, tgrown>>
     /\ h' = Log([a |-> "Build", x |-> "-", r |-> "-", st |-> StAfterApply])
 
 Reset ==
     /\ shapes' = <<>> /\ nextID' = 0 /\ status' = "fresh" /\ indexed' = {}
     /\ pendPos' = IF AsImplemented THEN pendPos ELSE 0
     /\ epoch' = epoch + 1
-    /\ UNCHANGED <<cpq, ceq, eff, inv, lidx>>
+    /\ UNCHANGED <<cpq, ceq, eff, inv, lidx, tgrown>>
     /\ h' = Log([a |-> "Reset", x |-> "-", r |-> "-",
                  st |-> [status |-> "fresh", pend |-> 0, next |-> 0, n |-> 0, indexed |-> {}]])
 
@@ -101,18 +102,18 @@ Remove(s) ==
        IN  /\ shapes' = [shapes EXCEPT ![i] = "-"]
            /\ status' = IF queued THEN "stale" ELSE status
            /\ epoch' = epoch + 1
-           /\ UNCHANGED <<nextID, pendPos, indexed, cpq, ceq, eff, inv, lidx>>
+           /\ UNCHANGED <<nextID, pendPos, indexed, cpq, ceq, eff, inv, lidx, tgrown>>
            /\ h' = Log([a |-> "Remove", x |-> s, r |-> "-",
                         st |-> [status |-> IF queued THEN "stale" ELSE status, pend |-> pendPos, next |-> nextID,
                                 n |-> NumLive - 1, indexed |-> indexed]])
 
 NewCPQ ==
     /\ MaybeApplyVars /\ cpq' = epoch
-    /\ UNCHANGED <<shapes, nextID, epoch, ceq, eff, inv, lidx>>
+    /\ UNCHANGED <<shapes, nextID, epoch, ceq, eff, inv, lidx, tgrown>>
     /\ h' = Log([a |-> "NewCPQ", x |-> "-", r |-> "-", st |-> StAfterApply])
 NewCEQ ==
     /\ MaybeApplyVars /\ ceq' = epoch
-    /\ UNCHANGED <<shapes, nextID, epoch, cpq, eff, inv, lidx>>
+    /\ UNCHANGED <<shapes, nextID, epoch, cpq, eff, inv, lidx, tgrown>>
     /\ h' = Log([a |-> "NewCEQ", x |-> "-", r |-> "-", st |-> StAfterApply])
 
 \* the answers: functions of the shapes currently held only
@@ -128,18 +129,18 @@ FindAllAns == TotalEdges(Present)
 \* apply pending updates, so it is only used while the index is fresh.
 Contains(p) ==
     /\ cpq # -1 /\ status = "fresh"
-    /\ UNCHANGED <<shapes, nextID, pendPos, status, indexed, epoch, cpq, ceq, eff, inv, lidx>>
+    /\ UNCHANGED <<shapes, nextID, pendPos, status, indexed, epoch, cpq, ceq, eff, inv, lidx, tgrown>>
     /\ h' = Log([a |-> "Contains", x |-> p, r |-> ContainsAns(p), st |-> St])
 Cross(e) ==
     /\ ceq # -1 /\ status = "fresh"
-    /\ UNCHANGED <<shapes, nextID, pendPos, status, indexed, epoch, cpq, ceq, eff, inv, lidx>>
+    /\ UNCHANGED <<shapes, nextID, pendPos, status, indexed, epoch, cpq, ceq, eff, inv, lidx, tgrown>>
     /\ h' = Log([a |-> "Cross", x |-> e, r |-> CrossAns(e), per |-> CrossPerShape(e), st |-> St])
 \* a fresh EdgeQuery (interiors excluded, all results): touches the cell map only on the optimized path
 FindAll(p) ==
     /\ IF TotalEdges(Present) > BruteForceLimit
        THEN MaybeApplyVars
-       ELSE UNCHANGED <<status, pendPos, indexed>>
-    /\ UNCHANGED <<shapes, nextID, epoch, cpq, ceq, eff, inv, lidx>>
+       ELSE UNCHANGED <<status, pendPos, indexed, tgrown>>
+    /\ UNCHANGED <<shapes, nextID, epoch, cpq, ceq, eff, inv, lidx, tgrown>>
     /\ h' = Log([a |-> "FindAll", x |-> p, r |-> FindAllAns,
                  st |-> IF TotalEdges(Present) > BruteForceLimit THEN StAfterApply ELSE St])
 
@@ -150,7 +151,7 @@ DistInAns(p) == IF \E s \in Present : s = "SF" \/ CentreOf[s] = p THEN "zero"
                 ELSE IF TotalEdges(Present) = 0 THEN "inf" ELSE "pos"
 DistIn(p) ==
     /\ MaybeApplyVars
-    /\ UNCHANGED <<shapes, nextID, epoch, cpq, ceq, eff, inv, lidx>>
+    /\ UNCHANGED <<shapes, nextID, epoch, cpq, ceq, eff, inv, lidx, tgrown>>
     /\ h' = Log([a |-> "DistIn", x |-> p, r |-> DistInAns(p), st |-> StAfterApply])
 
 IndexNext ==
@@ -203,39 +204,55 @@ EqPresent == IF epoch % 2 = 0 THEN {"S1", "S2"} ELSE {"S2", "S3"}
 \* number of edges within the limit of the target
 InRange(t, limit) ==
     IF limit = "inf" \/ limit = "far" THEN TotalEdges(EqPresent)
-    ELSE IF t = "P0" THEN 0
+    ELSE IF t \in {"P0", "PG"} THEN 0
     ELSE LET s == CHOOSE x \in ShapeNames : CentreOf[x] = t
          IN  IF s \in EqPresent THEN NumEdgesOf[s] ELSE 0
 
 FindEdgesAns(o, t) == Min2(o.max, InRange(t, o.limit))
 DistanceAns(o, t) == IF InRange(t, o.limit) = 0 THEN "inf" ELSE "pos"
 IsLessAns(t, d) == InRange(t, d) > 0
+\* A ShapeIndex target is an index of its own, and the caller may add to it between calls
+\* (GrowTarget adds a point at the centre of S2, which every epoch holds, and builds the target
+\* index).  Queries that use ShapeIndex targets must see the grown target at once.
+IndexTargetQueries == {"Q4", "Q5", "F2"}
+IsLessAnsQ(q, t, d) == IsLessAns(t, d) \/ (q \in IndexTargetQueries /\ t \in tgrown /\ d = "near")
 
 Opts(q) == IF AsImplemented THEN eff[q] ELSE UserOpts[q]
 
 FindEdges(q, t) ==
-    /\ UNCHANGED <<shapes, nextID, pendPos, status, indexed, epoch, cpq, ceq, eff, inv, lidx>>
+    /\ UNCHANGED <<shapes, nextID, pendPos, status, indexed, epoch, cpq, ceq, eff, inv, lidx, tgrown>>
     /\ h' = Log([a |-> "FindEdges", q |-> q, x |-> t, r |-> FindEdgesAns(Opts(q), t), eff |-> Opts(q)])
 Distance(q, t) ==
     /\ eff' = IF AsImplemented THEN [eff EXCEPT ![q].max = 1] ELSE eff
-    /\ UNCHANGED <<shapes, nextID, pendPos, status, indexed, epoch, cpq, ceq, inv, lidx>>
+    /\ UNCHANGED <<shapes, nextID, pendPos, status, indexed, epoch, cpq, ceq, inv, lidx, tgrown>>
     /\ h' = Log([a |-> "Distance", q |-> q, x |-> t, r |-> DistanceAns(Opts(q), t), eff |-> UserOpts[q]])
 IsDistanceLess(q, t, d) ==
     /\ eff' = IF AsImplemented THEN [eff EXCEPT ![q] = [max |-> 1, limit |-> d]] ELSE eff
-    /\ UNCHANGED <<shapes, nextID, pendPos, status, indexed, epoch, cpq, ceq, inv, lidx>>
+    /\ UNCHANGED <<shapes, nextID, pendPos, status, indexed, epoch, cpq, ceq, inv, lidx, tgrown>>
     /\ h' = Log([a |-> "IsDistanceLess", q |-> q, x |-> t, d |-> d,
-                 r |-> IF q \in Furthest THEN d = "near" ELSE IsLessAns(t, d), eff |-> UserOpts[q]])
+                 r |-> IF q \in Furthest THEN d = "near" ELSE IsLessAnsQ(q, t, d), eff |-> UserOpts[q]])
 
 SwitchGeo ==
     /\ epoch' = epoch + 1
-    /\ UNCHANGED <<shapes, nextID, pendPos, status, indexed, cpq, ceq, eff, inv, lidx>>
+    /\ UNCHANGED <<shapes, nextID, pendPos, status, indexed, cpq, ceq, eff, inv, lidx, tgrown>>
     /\ h' = Log([a |-> "SwitchGeo", q |-> "-", x |-> "-", r |-> "-"])
 
+GrowTarget(t) ==
+    /\ t \notin tgrown /\ tgrown' = tgrown \cup {t}
+    /\ UNCHANGED <<shapes, nextID, pendPos, status, indexed, epoch, cpq, ceq, eff, inv, lidx>>
+    /\ h' = Log([a |-> "GrowTarget", q |-> "-", x |-> t, r |-> "-"])
+
+\* Mode = "eq-grow": only the queries that use ShapeIndex targets, on the two targets that can grow
+EqQueries == IF Mode = "eq-grow" THEN IndexTargetQueries ELSE Queries
+\* "PG" is a target used in this mode only: its index starts with a single point near P0 (far from every
+\* shape), so that its bounding cap is small and the added point lies far outside it
+EqTargets == IF Mode = "eq-grow" THEN {"PG", "P1"} ELSE Targets
 EqNext ==
-    \/ \E q \in Queries, t \in Targets :
+    \/ \E t \in EqTargets \cap {"PG", "P1"} : GrowTarget(t)
+    \/ \E q \in EqQueries, t \in EqTargets :
           \/ FindEdges(q, t) \/ Distance(q, t)
           \/ \E d \in {"near", "far"} : IsDistanceLess(q, t, d)
-    \/ SwitchGeo
+    \/ Mode # "eq-grow" /\ SwitchGeo
 
 \* ====================================================================== loop
 Objs == {"L", "PG", "PG2"}   \* PG: shell with a hole; PG2: two disjoint shells, the smaller one first
@@ -251,7 +268,7 @@ Invert(o) ==
     /\ lidx' = [lidx EXCEPT ![o] = [status |-> "stale",
                                     pend |-> IF AsImplemented THEN lidx[o].pend ELSE 0,
                                     indexed |-> {}]]
-    /\ UNCHANGED <<shapes, nextID, pendPos, status, indexed, epoch, cpq, ceq, eff>>
+    /\ UNCHANGED <<shapes, nextID, pendPos, status, indexed, epoch, cpq, ceq, eff, tgrown>>
     /\ h' = Log([a |-> "Invert", o |-> o, x |-> "-", r |-> "-",
                  st |-> [status |-> "stale", pend |-> 0, indexed |-> {}]])
 LFresh == [status |-> "fresh", pend |-> 1, indexed |-> {0}]
@@ -261,13 +278,13 @@ LFresh == [status |-> "fresh", pend |-> 1, indexed |-> {0}]
 BoundRejects(o, p) == lidx[o].status = "stale" /\ p = "out" /\ inv[o] = 0
 LContains(o, p) ==
     /\ lidx' = IF BoundRejects(o, p) THEN lidx ELSE [lidx EXCEPT ![o] = LFresh]
-    /\ UNCHANGED <<shapes, nextID, pendPos, status, indexed, epoch, cpq, ceq, eff, inv>>
+    /\ UNCHANGED <<shapes, nextID, pendPos, status, indexed, epoch, cpq, ceq, eff, inv, tgrown>>
     /\ h' = Log([a |-> "LContains", o |-> o, x |-> p, r |-> LoopContainsAns(o, p),
                  st |-> IF BoundRejects(o, p) THEN lidx[o] ELSE LFresh])
 \* a cell query (ContainsCell of a small cell around the point) also forces the index
 LContainsCell(o, p) ==
     /\ lidx' = [lidx EXCEPT ![o] = LFresh]
-    /\ UNCHANGED <<shapes, nextID, pendPos, status, indexed, epoch, cpq, ceq, eff, inv>>
+    /\ UNCHANGED <<shapes, nextID, pendPos, status, indexed, epoch, cpq, ceq, eff, inv, tgrown>>
     /\ h' = Log([a |-> "LContainsCell", o |-> o, x |-> p, r |-> LoopContainsAns(o, p), st |-> LFresh])
 
 LoopNext ==
@@ -285,18 +302,19 @@ Init ==
     /\ eff = UserOpts
     /\ inv = [o \in Objs |-> 0]
     /\ lidx = [o \in Objs |-> [status |-> "stale", pend |-> 0, indexed |-> {}]]
+    /\ tgrown = {}
     /\ h = IF Mode = "eq1" THEN <<[a |-> "SwitchGeo", q |-> "-", x |-> "-", r |-> "-"]>> ELSE <<>>
 
 Finish ==
     /\ Len(h) = MaxLen
-    /\ PrintT(<<"HIST", ToJson([op |-> "c13." \o (IF Mode \in {"index-q", "index-ceq", "index-cpq"} THEN "index" ELSE IF Mode = "eq1" THEN "eq" ELSE Mode), steps |-> h])>>)
+    /\ PrintT(<<"HIST", ToJson([op |-> "c13." \o (IF Mode \in {"index-q", "index-ceq", "index-cpq"} THEN "index" ELSE IF Mode \in {"eq1", "eq-grow"} THEN "eq" ELSE Mode), steps |-> h])>>)
     /\ UNCHANGED vars
 
 Next ==
     \/ /\ Len(h) < MaxLen
        /\ \/ Mode = "index" /\ IndexNext
           \/ Mode \in {"index-q", "index-ceq", "index-cpq"} /\ IndexQNext
-          \/ Mode \in {"eq", "eq1"} /\ EqNext
+          \/ Mode \in {"eq", "eq1", "eq-grow"} /\ EqNext
           \/ Mode = "loop" /\ LoopNext
     \/ Finish
 
